@@ -183,7 +183,7 @@ func EnumerateDecisions(p *Program, fn *ssa.Function, opts DecisionOpts) (paths 
 		eqTrue   map[string]string
 		events   []string
 		allocVal map[*ssa.Alloc]ssa.Value
-		version  map[string]int // atoms invalidated by a store to a place they mention
+		version  map[string]int     // atoms invalidated by a store to a place they mention
 		indexVal map[*ssa.Phi]int64 // range loops over a fixed list: index of the current iteration
 	}
 	clone := func(s *state) *state {
